@@ -172,10 +172,28 @@ macro_rules! c10_n1 {
 		}
 	};
 }
-c10_n1!(c10_n1_unpack_a, [(0, 0), (1, 0), (1, 1), (8, 1), (9, 1)]);
-c10_n1!(c10_n1_unpack_b, [(10, 1), (16, 2), (17, 2), (18, 2), (5, 0)]);
-c10_n1!(c10_n1_unpack_c, [(25, 3), (24, 3), (26, 3), (33, 4), (40, 4)]);
-c10_n1!(c10_n1_unpack_d, [(40, 5), (40, 0), (3, 255), (40, 255), (40, 128)]);
+// one harness per (length, trailing count byte) pair: the decoders read the count back from a heap vector, so their
+// loops are unrolled to the bound with symbolic guards (about 1-3 minutes per pair)
+c10_n1!(c10_n1_unpack_l0_c0, [(0, 0)]);
+c10_n1!(c10_n1_unpack_l1_c0, [(1, 0)]);
+c10_n1!(c10_n1_unpack_l1_c1, [(1, 1)]);
+c10_n1!(c10_n1_unpack_l8_c1, [(8, 1)]);
+c10_n1!(c10_n1_unpack_l9_c1, [(9, 1)]);
+c10_n1!(c10_n1_unpack_l10_c1, [(10, 1)]);
+c10_n1!(c10_n1_unpack_l16_c2, [(16, 2)]);
+c10_n1!(c10_n1_unpack_l17_c2, [(17, 2)]);
+c10_n1!(c10_n1_unpack_l18_c2, [(18, 2)]);
+c10_n1!(c10_n1_unpack_l5_c0, [(5, 0)]);
+c10_n1!(c10_n1_unpack_l25_c3, [(25, 3)]);
+c10_n1!(c10_n1_unpack_l24_c3, [(24, 3)]);
+c10_n1!(c10_n1_unpack_l26_c3, [(26, 3)]);
+c10_n1!(c10_n1_unpack_l33_c4, [(33, 4)]);
+c10_n1!(c10_n1_unpack_l40_c4, [(40, 4)]);
+c10_n1!(c10_n1_unpack_l40_c5, [(40, 5)]);
+c10_n1!(c10_n1_unpack_l40_c0, [(40, 0)]);
+c10_n1!(c10_n1_unpack_l3_c255, [(3, 255)]);
+c10_n1!(c10_n1_unpack_l40_c255, [(40, 255)]);
+c10_n1!(c10_n1_unpack_l40_c128, [(40, 128)]);
 
 // =====================================================================================
 // C06.S1b: tier selection by Column::compress (codec replaced by a model returning any shorter/longer output)
